@@ -10,6 +10,7 @@ CONSTANTS
   CoordsY <- CY2
   Repaired = TRUE
   Measure = TRUE
+  StyleFix = TRUE
 SPECIFICATION Spec
-INVARIANTS Incremental ClipInScreen ClipInParent AcceptedInsideOwnExtent SetCellConforms WideCellConforms AutoCellConforms FillConforms ExtentConforms
+INVARIANTS Incremental ClipInScreen ClipInParent AcceptedInsideOwnExtent SetCellConforms WideCellConforms AutoCellConforms StyleConforms FillConforms ExtentConforms
 CHECK_DEADLOCK FALSE
